@@ -1,4 +1,4 @@
-import sys, os, json, subprocess, time, hashlib, re, resource, shutil, tempfile
+import threading, sys, os, json, subprocess, time, hashlib, re, resource, shutil, tempfile
 from concurrent.futures import ThreadPoolExecutor
 
 VERIF = os.path.dirname(os.path.dirname(os.path.abspath(__file__)))
@@ -124,9 +124,18 @@ def build_harness():
 
 def _limits():
     try:
-        resource.setrlimit(resource.RLIMIT_AS, (6 << 30, 6 << 30))
+        resource.setrlimit(resource.RLIMIT_AS, (2 << 30, 2 << 30))
     except Exception:
         pass
+
+
+# After this many HANG/ABORT verdicts of the implementation in one run the exploration stops early:
+# the violation is established (each verdict is a failing input), and a change that makes a parser
+# spin on a whole class of inputs would otherwise cost stall_s seconds per request.
+CRASH_BUDGET = 24
+_crashes = {"n": 0}
+_crash_lock = threading.Lock()
+SKIPPED = "SKIPPED-AFTER-CRASHES"
 
 
 def supervised(cmd, req_lines, stall_s, tag):
@@ -138,12 +147,18 @@ def supervised(cmd, req_lines, stall_s, tag):
     tmpdir = tempfile.mkdtemp(prefix="sup", dir=WORK)
     try:
         while start < n:
+            if _crashes["n"] >= CRASH_BUDGET:
+                out_all.extend([SKIPPED] * (n - len(out_all)))
+                break
             rq = os.path.join(tmpdir, "rq")
             ot = os.path.join(tmpdir, "ot")
             with open(rq, "w") as f:
                 f.write("\n".join(req_lines[start:]) + "\n")
             with open(rq) as fin, open(ot, "wb") as fout:
-                p = subprocess.Popen(cmd, stdin=fin, stdout=fout, stderr=subprocess.DEVNULL, preexec_fn=_limits)
+                # the address-space limit is for the real code only (the Lean runtime reserves a large
+                # address range at start-up and would not run under it)
+                p = subprocess.Popen(cmd, stdin=fin, stdout=fout, stderr=subprocess.DEVNULL,
+                                     preexec_fn=_limits if tag == "impl" else None)
                 last_size, last_change = -1, time.time()
                 verdict = None
                 while True:
@@ -168,6 +183,8 @@ def supervised(cmd, req_lines, stall_s, tag):
             if verdict is None:
                 verdict = "ABORT"
             out_all.append(f"{verdict}\t#FAIL:{verdict.lower()} ({tag})")
+            with _crash_lock:
+                _crashes["n"] += 1
             start = len(out_all)
         return out_all[:n]
     finally:
@@ -308,9 +325,13 @@ def main(argv):
     disagreements, oracle_new, oracle_known, resolved = [], [], {}, []
     nontrivial = set()
     unmodelled = 0
+    skipped = 0
     triv = re.compile(cfg.get("trivial_response", r"^$"))
     for i, req in enumerate(reqs):
         iobs, ifail = split_impl(impl[i]) if i < len(impl) else ("MISSING", "missing")
+        if iobs == SKIPPED:
+            skipped += 1
+            continue
         if model is not None and i < len(model):
             mobs, trig = split_model(model[i])
         else:
@@ -371,6 +392,7 @@ def main(argv):
              "model_disagreements": len(disagreements),
              "oracle_failures_new": len(oracle_new),
              "requests_answered_by_impl_only": unmodelled,
+             "requests_skipped_after_crash_budget": skipped,
              "axioms": pr.get("axioms"), "proof_failures": pr["failed"][:5]}
     if trans_info:
         extra["translator"] = trans_info
